@@ -215,7 +215,11 @@ type Gen struct {
 	// Missed is set by Value when a selector value selects no variant (or two), i.e. when the
 	// generated value is not a value of the TLS type although every field is in range.
 	Missed bool
-	cnt    int
+	// Edges makes Value draw enum values at and above the boundary of the field's width (see
+	// WidthEdges) a third of the time: in-range draws for valid values, over-width draws otherwise.
+	// Off by default (the random stream of existing users is unchanged).
+	Edges bool
+	cnt   int
 }
 
 func (g *Gen) name() string { g.cnt++; return fmt.Sprintf("F%d", g.cnt) }
@@ -406,6 +410,109 @@ func (g *Gen) VariantVec(depth int) (*Ty, string) {
 	return &Ty{Kind: "vec", Elem: st}, g.lenTag()
 }
 
+// MultiSel generates a struct with two or three selectors whose variant arms are interleaved in any
+// order (each arm after its selector), so that a decoder's bookkeeping of "which selector has been
+// satisfied" is exercised across selectors: arms of one selector separated by arms of another, an
+// earlier selector left unhandled while a later one is handled.
+func (g *Gen) MultiSel(depth int) *Ty {
+	st := &Ty{Kind: "struct"}
+	type arm struct {
+		sel string
+		val int
+	}
+	var arms []arm
+	for k, n := 0, 2+g.R.Intn(2); k < n; k++ {
+		sel := Field{Name: g.name(), Tag: g.enumTag(), T: &Ty{Kind: "enum"}}
+		st.Fields = append(st.Fields, sel)
+		for j, m := 0, 1+g.R.Intn(2); j < m; j++ {
+			arms = append(arms, arm{sel.Name, j})
+		}
+		if g.R.Intn(3) == 0 {
+			t, tag := g.Type(0, true)
+			st.Fields = append(st.Fields, Field{Name: g.name(), Tag: tag, T: t})
+		}
+	}
+	g.R.Shuffle(len(arms), func(i, j int) { arms[i], arms[j] = arms[j], arms[i] })
+	for _, a := range arms {
+		vt, vtag := g.Type(depth, true)
+		tag := fmt.Sprintf("selector:%s,val:%d", a.sel, a.val)
+		if vtag != "" {
+			tag = vtag + "," + tag
+		}
+		st.Fields = append(st.Fields, Field{Name: g.name(), Tag: tag, Ptr: true, T: vt})
+	}
+	return st
+}
+
+// FieldWidth is the number of octets (1..8) that an enum or a length prefix carrying this tag
+// occupies on the wire, computed from the tag by hand: size:n says it outright, maxval:N / maxlen:N
+// mean the number of octets needed to write N (at least one); the last such clause wins.  0 when the
+// tag fixes no width (or one outside 1..8).
+func FieldWidth(tag string) int {
+	w := 0
+	octets := func(x uint64) int {
+		n := 1
+		for x >>= 8; x > 0; x >>= 8 {
+			n++
+		}
+		return n
+	}
+	for _, part := range strings.Split(tag, ",") {
+		switch {
+		case strings.HasPrefix(part, "size:"):
+			if v, err := strconv.ParseUint(part[5:], 10, 32); err == nil {
+				w = int(v)
+			}
+		case strings.HasPrefix(part, "maxval:"):
+			if v, err := strconv.ParseUint(part[7:], 10, 64); err == nil {
+				w = octets(v)
+			}
+		case strings.HasPrefix(part, "maxlen:"):
+			if v, err := strconv.ParseUint(part[7:], 10, 64); err == nil {
+				w = octets(v)
+			}
+		}
+	}
+	if w < 1 || w > 8 {
+		return 0
+	}
+	return w
+}
+
+// WidthEdges returns, for a field of n octets (1..8), values around the boundary 2^(8n): fit holds
+// values that n octets can carry (0, 1, the smallest value needing n octets and its predecessor,
+// 2^(8n)-2, 2^(8n)-1), over holds values they cannot (2^(8n), 2^(8n)+1, the all-ones value of n+1
+// octets, an in-range value with a non-zero top octet of the uint64, 2^63, 2^64-1); over is empty for
+// n = 8.  r (optional) adds one random member to each.
+func WidthEdges(n int, r *rand.Rand) (fit, over []uint64) {
+	if n < 1 || n > 8 {
+		return nil, nil
+	}
+	mask := ^uint64(0)
+	if n < 8 {
+		mask = uint64(1)<<(8*uint(n)) - 1
+	}
+	fit = []uint64{0, 1, mask - 1, mask}
+	if n > 1 {
+		lo := uint64(1) << (8 * uint(n-1))
+		fit = append(fit, lo-1, lo)
+	}
+	if r != nil {
+		fit = append(fit, r.Uint64()&mask)
+	}
+	if n == 8 {
+		return fit, nil
+	}
+	over = []uint64{mask + 1, mask + 2, 1 << 63, ^uint64(0), uint64(0x01)<<56 | 5, uint64(0xff)<<56 | mask>>8}
+	if n < 7 {
+		over = append(over, uint64(1)<<(8*uint(n+1))-1)
+	}
+	if r != nil {
+		over = append(over, uint64(1+r.Intn(255))<<56|r.Uint64()&mask, mask+1+r.Uint64()&mask)
+	}
+	return fit, over
+}
+
 // tagMax extracts (count-relevant) limits of a length/enum tag for value generation.
 func tagLimits(tag string) (min, max uint64, size int) {
 	max = 40
@@ -470,6 +577,15 @@ func (g *Gen) Value(t *Ty, tag string, v reflect.Value, valid bool) {
 		v.SetUint(edge(8))
 	case "enum":
 		_, max, size := tagLimits(tag)
+		if wd := FieldWidth(tag); g.Edges && wd > 0 && r.Intn(3) == 0 {
+			fit, over := WidthEdges(wd, r)
+			if valid || len(over) == 0 || r.Intn(3) == 0 {
+				v.SetUint(fit[r.Intn(len(fit))])
+			} else {
+				v.SetUint(over[r.Intn(len(over))])
+			}
+			return
+		}
 		switch {
 		case size > 0 && size <= 8:
 			x := edge(uint(size))
@@ -573,7 +689,7 @@ func (g *Gen) Value(t *Ty, tag string, v reflect.Value, valid bool) {
 				for _, f2 := range t.Fields[i+1:] {
 					if strings.Contains(f2.Tag, "selector:"+f.Name+",") || strings.HasSuffix(f2.Tag, "selector:"+f.Name) {
 						has = true
-						if strings.Contains(f2.Tag+",", fmt.Sprintf("val:%d,", fv.Uint())) {
+						if tagVal(f2.Tag) == fv.Uint() {
 							hits++
 						}
 					}
@@ -584,6 +700,19 @@ func (g *Gen) Value(t *Ty, tag string, v reflect.Value, valid bool) {
 			}
 		}
 	}
+}
+
+// tagVal is the value of the val: clause of a tag as the codec reads it (the last parsable one; 0
+// without).  A substring test will not do: "maxval:16777215," contains "val:16777215,".
+func tagVal(tag string) (val uint64) {
+	for _, part := range strings.Split(tag, ",") {
+		if strings.HasPrefix(part, "val:") {
+			if x, err := strconv.ParseUint(part[4:], 10, 64); err == nil {
+				val = x
+			}
+		}
+	}
+	return val
 }
 
 func (g *Gen) pickLen(min, max uint64, valid bool) uint64 {
